@@ -80,14 +80,15 @@ TEMPLATES = {
 }
 
 
-ANNOTATIONS = {"diamond2pair": [(2, 1), (2, 0), (2, 1), (2, 0), (3, 1), (3, 0), (4, 1), (3, 0)],
+ANNOTATIONS = {"c4pair": [(1, 2), (0, 1), (0, 2), (0, 1), (2, 1), (0, 3), (0, 1)],
+               "diamond2pair": [(2, 1), (2, 0), (2, 1), (2, 0), (3, 1), (3, 0), (4, 1), (3, 0)],
                "twotopo": [(1, 2), (1, 2), (1, 2), (2, 1), (2, 1), (3, 1), (4, 1), (1, 3), (1, 4), (1, 4)]}
 
 
 def template_cfg(cfg):
     V, motifs = TEMPLATES[cfg["template"]]
     c = dict(cfg)
-    c["V"] = V
+    c["V"] = V + cfg.get("extra_isolated", 0)  # vertices of joint degree zero: they must survive rewiring too
     if cfg["template"] in ANNOTATIONS:
         c["ann"] = ANNOTATIONS[cfg["template"]]
     c["shapes"] = [m[0] for m in motifs]
@@ -143,7 +144,7 @@ def build_network(cfg, placement, extras=None):
     for i, v in enumerate(nodes):
         if extras:
             jd[v][0] += extras[i]
-        if cfg.get("ann"):
+        if cfg.get("ann") and i < len(cfg["ann"]):
             jd[v] = list(cfg["ann"][i])
         G.nodes[v][NN.JOINT_DEGREE] = tuple(jd[v])
     return net, used
